@@ -1,5 +1,6 @@
 import Slu.Proto
 import Slu.Model.Order
+import Slu.Model.PostorderNR
 -- HANDLER order => Slu.Drv.Order.handle
 /-
 Driver for family `order` (C10).
@@ -179,6 +180,9 @@ def corr (c : Case) : Option String := Id.run do
   if n ≤ cap then
     if let some e := cmpNat "ct.parent(def)" (etreeDef n A.col) (c.int "ct.parent") then return some e
   if let some e := cmpNat "ct.post" (treePostorder n ct) (c.int "ct.post") then return some e
+  -- the loop form nr_etdfs as executed (Model/PostorderNR.lean; proved equal to the recursive form: treePostorderNR_eq)
+  if !NR.finished n ct then return some "ct.post(loop form): nr_etdfs model did not reach an exit within 2n+3 loop heads"
+  if let some e := cmpNat "ct.post(loop form)" (NR.treePostorderNR n ct) (c.int "ct.post") then return some e
   return none
 
 def handle (c : Case) : Res :=
